@@ -144,3 +144,40 @@ Theorem state_root_bound (H : bytes -> bytes) (hlen : nat) (H_len : forall x, le
   h1 = h2 \/ collision H.
 Proof. exact (state_root_bound_l H hlen H_len decode_meta_tx lb_next lb txs1 txs2 h1 h2). Qed.
 Print Assumptions state_root_bound.
+
+Theorem core_get_block_binds (H : bytes -> bytes) (lbo : option light_block) (b : block) :
+  core_get_block H lbo b = BOk -> exists lb, lbo = Some lb /\ verify_block H b lb = BOk.
+Proof. exact (core_get_block_binds_l H lbo b). Qed.
+Print Assumptions core_get_block_binds.
+
+Theorem core_get_transactions_binds (H : bytes -> bytes) (lbo : option light_block) (txs : list bytes) :
+  core_get_transactions H lbo txs = BOk -> exists lb, lbo = Some lb /\ verify_transactions H txs lb = BOk.
+Proof. exact (core_get_transactions_binds_l H lbo txs). Qed.
+Print Assumptions core_get_transactions_binds.
+
+Theorem core_get_transactions_with_proofs_binds (H : bytes -> bytes) (hlen : nat) (H_len : forall x, length (H x) = hlen) (lbo : option light_block) (txs : list bytes) (ret : list proof) :
+  core_get_transactions_with_proofs H lbo txs ret = BOk ->
+  exists lb, lbo = Some lb /\ verify_transactions H txs lb = BOk /\ length ret = length txs /\
+    forall d, lb_data_hash lb = Some d ->
+    forall i p, nth_error ret i = Some p -> verify_transaction_proof H (Some p) (nth i txs []) lb = BOk.
+Proof. exact (core_get_transactions_with_proofs_binds_l H hlen H_len lbo txs ret). Qed.
+Print Assumptions core_get_transactions_with_proofs_binds.
+
+Theorem core_get_parameters_binds (H : bytes -> bytes) (lbo : option light_block) (pm : parameters) (sp : option bytes) :
+  core_get_parameters H lbo pm sp = BOk -> exists lb, lbo = Some lb /\ verify_parameters H pm sp lb = BOk.
+Proof. exact (core_get_parameters_binds_l H lbo pm sp). Qed.
+Print Assumptions core_get_parameters_binds.
+
+Theorem core_get_validators_binds (H : bytes -> bytes) (lbo : option light_block) (height : Z) (lbp : option light_block) (vs : validators) :
+  core_get_validators H lbo height lbp vs = BOk ->
+  (exists lb, lbo = Some lb) \/
+  (lbo = None /\ (2 <= height)%Z /\ exists p, lbp = Some p /\ verify_next_validators H vs p = BOk).
+Proof. exact (core_get_validators_binds_l H lbo height lbp vs). Qed.
+Print Assumptions core_get_validators_binds.
+
+Theorem core_submit_tx_with_proof_binds (H : bytes -> bytes) (hlen : nat) (H_len : forall x, length (H x) = hlen) (lbo : option light_block) (p : option proof) (tx : bytes) (txs : list bytes) :
+  core_submit_tx_with_proof H lbo p tx = BOk ->
+  exists lb, lbo = Some lb /\ verify_transaction_proof H p tx lb = BOk /\
+    (verify_transactions H txs lb = BOk -> In tx txs \/ collision H).
+Proof. exact (core_submit_tx_with_proof_binds_l H hlen H_len lbo p tx txs). Qed.
+Print Assumptions core_submit_tx_with_proof_binds.
